@@ -101,8 +101,7 @@ def quatAtG {α : Type} (r : FConst → α) (dflt : α × α × α × α) (i : N
 
 /-! ### exact values of the float constants -/
 
-/-- the exact rational `num * 2^exp` a constant denotes -/
-def FConst.toRat (c : FConst) : Rat := (c.num : Rat) * (2 : Rat) ^ c.exp
+-- `FConst.toRat` (the exact rational `num * 2^exp` a constant denotes) lives in `A5/Model/FConst.lean`
 
 /-- IEEE-754 binary64 decoding of a finite bit pattern as an exact rational:
 `(-1)^s * m * 2^(e-1075)` with the hidden bit for normal numbers. -/
